@@ -37,9 +37,15 @@ pub struct Probes {
     pub caps_word_seen: u64,
     pub blocked_only_by_switch_timing: u64,
     pub virtual_sleep_ns: u64,
+    /// ticks in which >= 2 custom-action states were released, or one was released while another
+    /// was pressed (keyberon delivers at most one custom event per tick)
+    pub custom_events_collided: u64,
 }
 
 pub struct Stepper {
+    /// keys kanata intercepts (what event_loop's MAPPED_KEYS filter lets through); None = unfiltered
+    pub mapped: Option<rustc_hash::FxHashSet<OsCode>>,
+    pub dropped_unmapped: u64,
     pub k: Kanata,
     pub mode: Mode,
     /// ticks executed so far == absolute time in ms in ticking mode
@@ -53,6 +59,7 @@ pub struct Stepper {
     pub probes: Probes,
     pub tick_err: Option<String>,
     sleep_base: u64,
+    pub track_custom: bool,
 }
 
 pub fn new_kanata(cfg: &str, files: &[(String, String)]) -> Result<Kanata, String> {
@@ -69,8 +76,23 @@ impl Stepper {
         Ok(Stepper::from_kanata(k, mode))
     }
 
+    /// Like `new`, but events for keys outside the configuration's mapped-key set are passed
+    /// through untouched by kanata, as `event_loop` does (they never reach the state machine).
+    pub fn new_filtered(cfg: &str, files: &[(String, String)], mode: Mode) -> Result<Stepper, String> {
+        let mut m: rustc_hash::FxHashMap<String, String> = Default::default();
+        for (k, v) in files {
+            m.insert(k.clone(), v.clone());
+        }
+        let mapped = kanata_parser::cfg::new_from_str(cfg, m).map_err(|e| format!("{e:?}"))?.mapped_keys;
+        let mut st = Stepper::new(cfg, files, mode)?;
+        st.mapped = Some(mapped);
+        Ok(st)
+    }
+
     pub fn from_kanata(k: Kanata, mode: Mode) -> Stepper {
         Stepper {
+            mapped: None,
+            dropped_unmapped: 0,
             k,
             mode,
             now: 0,
@@ -82,10 +104,35 @@ impl Stepper {
             probes: Probes::default(),
             tick_err: None,
             sleep_base: kanata_verif_rt::inactive_slept_ns(),
+            track_custom: false,
+        }
+    }
+
+    fn drain_repeat(&mut self) {
+        let n0 = self.trace.outs.len();
+        self.drain();
+        for e in self.trace.outs[n0..].iter_mut() {
+            if e.kind == OutKind::Press {
+                e.kind = OutKind::RepeatOut;
+            }
         }
     }
 
     fn drain(&mut self) {
+        if std::env::var_os("KSIM_TRACE").is_some() {
+            let l = self.k.layout.b();
+            eprintln!(
+                "  t={} q={} states={} waiting={} xw={} aq={} out={:?} keys={:?}",
+                self.now,
+                l.queue.len(),
+                l.states.len(),
+                l.waiting.is_some(),
+                l.extra_waiting.len(),
+                l.action_queue.len(),
+                self.k.kbd_out.outputs.events,
+                l.keycodes().collect::<Vec<_>>()
+            );
+        }
         if self.k.kbd_out.outputs.events.is_empty() {
             return;
         }
@@ -151,7 +198,36 @@ impl Stepper {
         cb
     }
 
+    fn custom_states(&self) -> Vec<(usize, (u8, u16))> {
+        use kanata_keyberon::layout::State;
+        self.k
+            .layout
+            .b()
+            .states
+            .iter()
+            .filter_map(|s| match s {
+                State::Custom { value, coord } => Some((*value as *const _ as *const u8 as usize, *coord)),
+                _ => None,
+            })
+            .collect()
+    }
+
     fn one_tick(&mut self, n: u128) {
+        let before = if self.track_custom && n == 1 { self.custom_states() } else { vec![] };
+        self.one_tick_inner(n);
+        if self.track_custom && n == 1 {
+            let after = self.custom_states();
+            if !(before.is_empty() && after.is_empty()) {
+                let removed = before.iter().filter(|x| !after.contains(x)).count();
+                let added = after.iter().filter(|x| !before.contains(x)).count();
+                if removed >= 2 || (removed >= 1 && added >= 1) || added >= 2 {
+                    self.probes.custom_events_collided += 1;
+                }
+            }
+        }
+    }
+
+    fn one_tick_inner(&mut self, n: u128) {
         if let Err(e) = self.k.tick_ms(n, &None) {
             if self.tick_err.is_none() {
                 self.tick_err = Some(format!("{e}"));
@@ -219,6 +295,15 @@ impl Stepper {
         let Some(osc) = OsCode::from_u16(code) else {
             return;
         };
+        if let Some(m) = &self.mapped {
+            if !m.contains(&osc) {
+                self.dropped_unmapped += 1;
+                return;
+            }
+        }
+        if std::env::var_os("KSIM_TRACE").is_some() {
+            eprintln!("IN t={} {:?} {:?}", self.now, osc, value);
+        }
         self.before_input(op_idx);
         if self.k.layout.b().queue.len() >= 32 {
             self.probes.queue_full_on_event += 1;
@@ -227,6 +312,9 @@ impl Stepper {
             if self.tick_err.is_none() {
                 self.tick_err = Some(format!("handle_input_event: {e}"));
             }
+        }
+        if value == KeyValue::Repeat {
+            self.drain_repeat();
         }
         self.after_input();
     }
